@@ -158,6 +158,25 @@ class Net(nn.Module):
                 self.head['fc'] = nn.Linear(hid, h.get('out', 3))
         elif self._hk == 'fcn':
             self.head['out'] = (nn.Conv1d if dim == 1 else nn.Conv2d)(c, h.get('out', 2), 1)
+            if h.get('post') == 'gap':
+                self.head['gap'] = nn.AdaptiveAvgPool1d(1) if dim == 1 else nn.AdaptiveAvgPool2d(1)
+            if h.get('post') == 'relu':
+                self.head['postrelu'] = nn.ReLU()
+        elif self._hk == 'fcnadd':
+            self.head['out'] = (nn.Conv1d if dim == 1 else nn.Conv2d)(c, h.get('out', 2), 1)
+            self.head['out2'] = (nn.Conv1d if dim == 1 else nn.Conv2d)(c, h.get('out', 2), 1)
+        elif self._hk == 'flatadd':
+            # two distinct searchable producers are flattened (or pooled + squeezed) BEFORE the width-sharing join
+            conv = nn.Conv1d if dim == 1 else nn.Conv2d
+            self.head['fa'] = conv(c, 3, 1)
+            self.head['fb'] = conv(c, 3, 1)
+            with torch.no_grad():
+                probe = self._features(torch.zeros((1, prog['cin']) + (prog['size'],) * dim))
+            sp = int(probe[0].numel() // c)
+            if h.get('join') == 'gap':
+                self.head['gap'] = nn.AdaptiveAvgPool1d(1) if dim == 1 else nn.AdaptiveAvgPool2d(1)
+                sp = 1
+            self.head['fc'] = nn.Linear(3 * sp, h.get('out', 3))
         else:
             raise ValueError(self._hk)
 
@@ -203,7 +222,7 @@ class Net(nn.Module):
                 x = torch.flatten(x, 1)
             else:
                 x = x.flatten(1)
-            return self.head['fc'](x)
+            return self._post(self.head['fc'](x))
         if self._hk == 'gaplin':
             x = self.head['gap'](x)
             fl = h.get('flat', 'module')
@@ -219,8 +238,35 @@ class Net(nn.Module):
             if 'bn' in self.head:
                 x = self.head['bn'](x)
             x = self.head['relu'](x)
-            return self.head['fc'](x)
-        return self.head['out'](x)
+            return self._post(self.head['fc'](x))
+        if self._hk == 'fcnadd':
+            return self.head['out'](x) + self.head['out2'](x)
+        if self._hk == 'flatadd':
+            a, b = self.head['fa'](x), self.head['fb'](x)
+            if h.get('join') == 'gap':
+                a, b = self.head['gap'](a), self.head['gap'](b)
+                if self.prog['dim'] == 1:
+                    j = a.squeeze(2) + b.squeeze(2)
+                else:
+                    j = torch.flatten(a, 1) + torch.flatten(b, 1)
+            else:
+                j = a.flatten(1) + b.flatten(1)
+            return self.head['fc'](torch.relu(j))
+        y = self.head['out'](x)
+        if h.get('post') == 'gap':
+            return torch.flatten(self.head['gap'](y), 1)
+        if h.get('post') == 'relu':
+            return self.head['postrelu'](y)
+        return self._post(y)
+
+    def _post(self, y):
+        """the last searchable layer may reach the output through a features-propagating op"""
+        p = self.prog['head'].get('post')
+        if p == 'frelu':
+            return F.relu(y)
+        if p == 'lsm':
+            return F.log_softmax(y, dim=1)
+        return y
 
 
 def build(prog, seed):
@@ -272,7 +318,8 @@ def layer_names(prog):
         elif op == 'concat':
             out += [f'blocks.s{i}m{j}.conv' for j, m in enumerate(st['members']) if m != 'id']
     hk = prog['head']['kind']
-    out += {'flatlin': ['head.fc'], 'gaplin': ['head.fc1', 'head.fc'], 'fcn': ['head.out']}[hk]
+    out += {'flatlin': ['head.fc'], 'gaplin': ['head.fc1', 'head.fc'], 'fcn': ['head.out'], 'fcnadd': ['head.out', 'head.out2'],
+            'flatadd': ['head.fa', 'head.fb', 'head.fc']}[hk]
     return out
 
 
@@ -318,8 +365,16 @@ def alive_ref(prog, own, flat_mult):
     elif hk == 'gaplin':
         t1 = conv('head.fc1', T)
         exp_in['head.fc'] = t1
+    elif hk == 'flatadd':
+        a = conv('head.fa', T)
+        b = conv('head.fb', T)
+        if a != b:
+            issues.append(('head', 'sum-sides-differ', a, b))
+        exp_in['head.fc'] = [p or q for p, q in zip(a, b) for _ in range(flat_mult)]
     else:
         exp_in['head.out'] = list(T)
+        if hk == 'fcnadd':
+            exp_in['head.out2'] = list(T)
     return exp_in, issues
 
 
@@ -347,9 +402,10 @@ HEADS = [{'kind': 'flatlin'}, {'kind': 'gaplin'}, {'kind': 'fcn'}]
 
 CONV_OPTS = [{'bias': False}, {'bn': True}, {'bn': True, 'bias': False}, {'s': 2}, {'k': 5}, {'k': 1}, {'k': 4}, {'d': 2}, {'pad': 'sym'}, {'pad': 'same'},
              {'act': 'silu'}, {'act': 'frelu'}, {'act': None}, {'act': 'relu6'}, {'cout': 4}]
-HEAD_OPTS = {'flatlin': [{'flat': 'torch'}, {'flat': 'method'}, {'bias': False}],
-             'gaplin': [{'flat': 'torch'}, {'flat': 'method'}, {'flat': 'squeeze'}, {'bn': False}, {'hbias': False}],
-             'fcn': []}
+HEAD_OPTS = {'flatlin': [{'flat': 'torch'}, {'flat': 'method'}, {'bias': False}, {'post': 'frelu'}, {'post': 'lsm'}],
+             'gaplin': [{'flat': 'torch'}, {'flat': 'method'}, {'flat': 'squeeze'}, {'bn': False}, {'hbias': False}, {'post': 'frelu'}],
+             'fcn': [{'post': 'relu'}, {'post': 'gap'}, {'post': 'frelu'}, {'post': 'lsm'}],
+             'fcnadd': [], 'flatadd': []}
 POOL_OPTS = [{'kind': 'avg'}, {'kind': 'adaptive'}]
 
 
@@ -519,5 +575,24 @@ def must_be_full(prog):
                 if m == 'dwconv' and tied:
                     out.add(f'blocks.s{i}m{j}.conv')
             tied = False
-    out.add({'flatlin': 'head.fc', 'gaplin': 'head.fc', 'fcn': 'head.out'}[prog['head']['kind']])
+    out.add({'flatlin': 'head.fc', 'gaplin': 'head.fc', 'fcn': 'head.out', 'fcnadd': 'head.out', 'flatadd': 'head.fc'}[prog['head']['kind']])
+    if prog['head']['kind'] == 'fcnadd':
+        out.add('head.out2')
     return out
+
+
+def gen_special(dims=(1, 2)):
+    """targeted structures that need two cooperating options (kept small; every check over G_pit includes them):
+    * a Conv(+BN) WITHOUT activation whose output has several consumers (skip taken at the BN output);
+    * the network output produced by an add of two searchable layers."""
+    out = []
+    for dim in dims:
+        for o in ({'bn': True, 'act': None}, {'act': None}, {'bn': True, 'act': None, 'bias': False}):
+            for nxt in ({'op': 'skipadd'}, {'op': 'residual'}, {'op': 'concat', 'members': ['conv', 'id']}, {'op': 'twice'}):
+                for h in (HEADS if nxt['op'] == 'skipadd' else HEADS[:1]):
+                    out.append({'dim': dim, 'cin': 3, 'size': _size(dim), 'stages': [dict({'op': 'conv'}, **o), dict(nxt)], 'head': dict(h)})
+        for st in ([{'op': 'conv'}], [{'op': 'residual'}], [{'op': 'conv'}, {'op': 'pool', 'kind': 'max'}]):
+            out.append({'dim': dim, 'cin': 3, 'size': _size(dim), 'stages': [dict(x) for x in st], 'head': {'kind': 'fcnadd'}})
+            out.append({'dim': dim, 'cin': 3, 'size': _size(dim), 'stages': [dict(x) for x in st], 'head': {'kind': 'flatadd'}})
+            out.append({'dim': dim, 'cin': 3, 'size': _size(dim), 'stages': [dict(x) for x in st], 'head': {'kind': 'flatadd', 'join': 'gap'}})
+    return [p for p in out if _valid(p)]
